@@ -2,6 +2,7 @@ import BoltonsVerif.Common
 import BoltonsVerif.C17.Model
 import BoltonsVerif.C17.Heap
 import BoltonsVerif.C17.Args
+import BoltonsVerif.C17.Lifetime
 /-
 C17 line protocol.  One line = one whole history:   <type> <tok> <tok> ...
 type = oto | m2m | fd ; a token is `/`-separated, objects are natural-number ids,
@@ -17,6 +18,13 @@ m2m:  [X/<probe ids> first]  MI/<pairs>  NX/<i>  N/<arg>  A/<r>/<s>/<k>/<v>  R/<
 fd:   B/<fpairs> first, then  Ms/<k>/<fv> Md/<k> Mi/<fpairs> Mu/<fpairs> Mf/<k>/<fv> Mp/<k> Mo Mc
       H  E/<fpairs>[/<route>]  U/<fpairs>  Y  K/<keys>/<fv>   (fv = h<n> | u<n>; Y = hash, then copy/deepcopy/pickle;
       route = how the other FrozenDict is reached: ctor fromdict updated updated_all overwrite pickle deepcopy copy)
+
+both: K/<r>/<mode>  the caller keeps only … of instance r and lets go of its other references (then a collection):
+      mode = i (the `.inv` object) | f (the forward object) | ii (what `x.inv.inv` gives) | fi (both again) | none.
+      The instance machines are untouched (instances never die there); the record is `RG1|<regs…>` when, in the
+      object-level machine of `Lifetime.lean` (halves = objects, `.inv` = a strong/weak reference as the
+      regenerated table `Generated.invRefs` says, unreachable objects freed), every instance the caller still
+      holds something of is reached whole from what is held (`Caller.ok`), else `RG0`.
 
 Output: one record per token joined by `;`.  oto/m2m record: `<ret>|<reg0>|<reg1>…`
 (ret: R- | R<v> | R<k>:<v> | X<ExceptionClass>); every register is dumped after every command.
@@ -74,6 +82,23 @@ def arg? (t : String) : Option (Arg Nat) :=
     | _ => none
   | _ => none
 
+/-! object lifetime (`Lifetime.lean`): which halves the caller still holds -/
+
+/-- `K/<r>/<mode>`: the new caller state and the flag `RG1` / `RG0` (a reference that cannot be taken - an
+    object on the way was freed - leaves the caller as it was, flag `RG0`) -/
+def keepTok (cl : Caller) (tok : String) : Option (Caller × String) :=
+  match splitOnChar tok '/' with
+  | ["K", r, mode] => match r.toNat? with
+    | some r => match cl.keep r mode with
+      | some cl' => some (cl', if cl'.ok then "RG1" else "RG0")
+      | none => some (cl, "RG0")
+    | none => none
+  | _ => none
+
+/-- a command that created an instance: `x = Cls(...)` ; `inv = x.inv` -/
+def grown (cl : Caller) (cls : String) (before after : Nat) : Caller :=
+  if before < after then (cl.newReg cls).getD cl else cl
+
 def otoTok? (tok : String) : Option (OtoCmdA Nat) :=
   match splitOnChar tok '/' with
   | ["MI", ps] => (parsePairs? ps).map .mkIter
@@ -120,15 +145,19 @@ def otoTok? (tok : String) : Option (OtoCmdA Nat) :=
 /-- the caller-level machine of `Args.lean`: dict / keyword de-duplication and the one pass over a one-shot
     iterator happen HERE, not in the harness -/
 def runOto (toks : List String) : Option (List String) :=
-  let rec go (st : OtoSt Nat) (toks : List String) (acc : List String) : Option (List String) :=
+  let rec go (st : OtoSt Nat) (cl : Caller) (toks : List String) (acc : List String) : Option (List String) :=
     match toks with
     | [] => some acc.reverse
-    | t :: ts => match otoTok? t with
-      | none => none
-      | some c => match otoCmdA st c with
+    | t :: ts => match keepTok cl t with
+      | some (cl', flag) => go st cl' ts (("|".intercalate (flag :: st.regs.map dumpOto)) :: acc)
+      | none => match otoTok? t with
         | none => none
-        | some (st', ret) => go st' ts (("|".intercalate (showRet ret :: st'.regs.map dumpOto)) :: acc)
-  go OtoSt.empty toks []
+        | some c => match otoCmdA st c with
+          | none => none
+          | some (st', ret) =>
+            go st' (grown cl "OneToOne" st.regs.length st'.regs.length) ts
+              (("|".intercalate (showRet ret :: st'.regs.map dumpOto)) :: acc)
+  go OtoSt.empty Caller.empty toks []
 
 /-! m2m -/
 
@@ -195,10 +224,15 @@ def runM2M (toks0 : List String) : Option (List String) :=
       | ["X", ids] => ((natList? ids).getD [], ts)
       | _ => ([], toks0)
     | [] => ([], toks0)
-  let rec go (st : M2MSt Nat) (hst : HM2MSt Nat) (toks : List String) (acc : List String) : Option (List String) :=
+  let rec go (st : M2MSt Nat) (hst : HM2MSt Nat) (cl : Caller) (toks : List String) (acc : List String) :
+      Option (List String) :=
     match toks with
     | [] => some acc.reverse
-    | t :: ts => match m2mTok? t with
+    | t :: ts => match keepTok cl t with
+     | some (cl', flag) =>
+      go st hst cl' ts (("|".intercalate (flag :: hst.st.abs.map (dumpM2M probe)) ++
+        s!"|V{if decide (st.regs = hst.st.abs) then 1 else 0}S{if separated hst.st then 1 else 0}") :: acc)
+     | none => match m2mTok? t with
       | none => none
       | some c => match m2mCmdA st c, hm2mCmdA hst c with
         | some (st', ret), some (hst', hret) =>
@@ -206,9 +240,10 @@ def runM2M (toks0 : List String) : Option (List String) :=
           -- V1: the by-value machine holds EXACTLY the same dicts (order included), returned the same and left the
           -- iterators in the same state (theorems `hm2m_refines`, `hm2mA_refines`; self-updates included)
           let agree := decide (st'.regs = hst'.st.abs) && showRet ret == showRet hret && decide (st'.iters = hst'.iters)
-          go st' hst' ts (s!"{byRef}|V{if agree then 1 else 0}S{if separated hst'.st then 1 else 0}" :: acc)
+          go st' hst' (grown cl "ManyToMany" st.regs.length st'.regs.length) ts
+            (s!"{byRef}|V{if agree then 1 else 0}S{if separated hst'.st then 1 else 0}" :: acc)
         | _, _ => none
-  go M2MSt.empty HM2MSt.empty toks []
+  go M2MSt.empty HM2MSt.empty Caller.empty toks []
 
 /-! fd -/
 
